@@ -237,7 +237,7 @@ def rbStep (s : St) (ws : List String) : St × String :=
     | ["peek"] => (s, match Ring.peek r with | some x => s!"peek {hexOut x}" | none => "peek nil")
     | ["num"] => (s, s!"num {Ring.numCached r}")
     | ["clear"] => ({ s with rb := some (Ring.clear r) }, "clear")
-    | ["iter"] => (s, "iter" ++ String.join ((Ring.iterAll r).map fun x => s!" {hexOut x}"))
+    | ["iter"] => (s, "iter" ++ String.join ((Ring.iterList r).map fun x => s!" {hexOut x}"))
     | ["destroy"] => ({ s with rb := none }, "destroy leak=0")
     | _ => (s, "bad-op")
 
